@@ -114,6 +114,9 @@ func genC03(c *ctx) {
 			last.OracleFail = fmt.Sprintf("Validate returned code %d but per-caveat/per-request clearing says cleared=%v", code, allOK)
 		}
 	}
+	if f := sameLengthMutationOracle(); f != "" {
+		s.st.Add(&cs.Case{Coq: coqw.App("KAccessValid", m.Acc{Kind: "ABare", Valid: true}.Coq(), coqw.N(0)), Desc: map[string]any{"op": "a set validated before, then changed at the same length"}, Class: "set-changed-in-place", Nontrivial: true, OracleFail: f})
+	}
 	if f := declinedAttestationOracle(); f != "" {
 		s.st.Add(&cs.Case{Coq: coqw.App("KAccessValid", m.Acc{Kind: "ABare", Valid: true}.Coq(), coqw.N(0)), Desc: map[string]any{"op": "a caveat type with an IsAttestation method that answers false"}, Class: "declined-attestation", Nontrivial: true, OracleFail: f})
 	}
@@ -333,11 +336,71 @@ func genC09(c *ctx) {
 			}
 		}
 	}
+	scaleSets(s, c, true)
 	// map iteration order must not matter: evaluate the same set many times
 	for i := 0; i < 40; i++ {
 		es := []m.EntS{{K: "a", M: 1}, {K: "ab", M: 3}, {K: "b", M: 31}, {K: "abc", M: 2}}
 		cv := m.Cav{Kind: "CStorageObjects", RSS: es}
 		s.prohibits(cv, m.Acc{Kind: "AFlyio", Org: org, Storage: pS("abcd"), Action: uint16(i % 4), Now: now}, "order", true)
+	}
+}
+
+// scaleSets: resource sets and conditionals far beyond every small size (9, 17, 33, 65, 100, 257, 300 entries / members):
+// the rule is the same at every size. Prefix sets keep a narrow enclosing prefix and a wider named entry among the fillers;
+// string and integer sets are asked about their first, a middle, their last and an unlisted id; conditionals have all but
+// the last member permitting. Every question is asked three times (Go walks maps in random order).
+func scaleSets(s aStream, c *ctx, withIf bool) {
+	now := m.T{Sec: 1700000000}
+	org := pN(1)
+	sizes := []int{9, 17, 33, 65, 100, 257}
+	if c.thorough {
+		sizes = append(sizes, 300, 1000)
+	}
+	for _, n := range sizes {
+		es := []m.EntS{{K: "data/", M: 1}, {K: "data/reports", M: 3}}
+		for i := 0; len(es) < n; i++ {
+			es = append(es, m.EntS{K: fmt.Sprintf("f%04d/", i), M: 31})
+		}
+		lastF := es[len(es)-1].K
+		for rep := 0; rep < 3; rep++ {
+			for _, obj := range []string{"data/reports", "data/reports/x", "data/x", "f0005/a", lastF + "z", lastF, "zzz", "data"} {
+				for _, act := range []uint16{1, 2, 3} {
+					s.prohibits(m.Cav{Kind: "CStorageObjects", RSS: es}, m.Acc{Kind: "AFlyio", Org: org, Storage: pS(obj), Action: act, Now: now}, "scale/prefix", true)
+				}
+			}
+		}
+		var vs []m.EntS
+		var as []m.EntN
+		for i := 0; i < n; i++ {
+			vs = append(vs, m.EntS{K: fmt.Sprintf("v%04d", i), M: uint16(1 + i%3)})
+			as = append(as, m.EntN{K: uint64(i + 1), M: uint16(1 + i%3)})
+		}
+		for rep := 0; rep < 3; rep++ {
+			for _, i := range []int{0, 1, n / 2, n - 2, n - 1, n, n + 7} {
+				for _, act := range []uint16{1, 2, 3} {
+					s.prohibits(m.Cav{Kind: "CVolumes", RSS: vs}, m.Acc{Kind: "AFlyio", Org: org, App: pN(1), Volume: pS(fmt.Sprintf("v%04d", i)), Action: act, Now: now}, "scale/string", true)
+					s.prohibits(m.Cav{Kind: "CApps", RSN: as}, m.Acc{Kind: "AFlyio", Org: org, App: pN(uint64(i + 1)), Action: act, Now: now}, "scale/integer", true)
+				}
+			}
+		}
+		if withIf {
+			for _, denyAt := range []int{n - 1, n / 2, -1} {
+				ifs := make([]m.Cav, 0, n)
+				for i := 0; i < n; i++ {
+					mk := uint16(3)
+					if i == denyAt {
+						mk = 1
+					}
+					ifs = append(ifs, m.Cav{Kind: "CApps", RSN: []m.EntN{{K: 7, M: mk}, {K: uint64(100 + i), M: 31}}})
+				}
+				cv := m.Cav{Kind: "CIfPresent", Ifs: &ifs, Mask: 1}
+				for _, act := range []uint16{1, 2, 3} {
+					s.prohibits(cv, m.Acc{Kind: "AFlyio", Org: org, App: pN(7), Action: act, Now: now}, "scale/conditional", true)
+					s.validate([]m.Cav{cv}, []m.Acc{{Kind: "AFlyio", Org: org, App: pN(7), Action: act, Now: now}}, "scale/conditional-set", true)
+				}
+				s.prohibits(cv, m.Acc{Kind: "AFlyio", Org: org, Action: 2, Now: now}, "scale/conditional", true)
+			}
+		}
 	}
 }
 
@@ -491,6 +554,18 @@ func genC10(c *ctx) {
 			}
 		}
 	}
+	// masks with undefined bits ("*" is 0xffff) print like masks without them: asked right after each other, in both orders
+	for ft := range flyio.MemberFeatures {
+		for _, pair := range [][2]uint16{{0x1f, 0xffff}, {0xffff, 0x1f}, {1, 0x101}, {0x101, 1}, {0, 0x8000}, {0x8000, 0}, {3, 0x23}} {
+			for _, act := range pair {
+				for _, roles := range []uint64{1, 2, 0xFFFFFFFF} {
+					s.prohibits(m.Cav{Kind: "CAllowedRoles", Mask: roles}, m.Acc{Kind: "AFlyio", Org: pN(1), Feature: pS(ft), Action: act, Now: m.T{}}, "roles/undefined-bits", true)
+					s.prohibits(m.Cav{Kind: "CIsMember"}, m.Acc{Kind: "AFlyio", Org: pN(1), Feature: pS(ft), Action: act, Now: m.T{}}, "roles/undefined-bits", true)
+				}
+			}
+		}
+	}
+	scaleSets(s, c, false)
 	_ = resset.ActionAll
 }
 
@@ -537,11 +612,33 @@ func genC17(c *ctx) {
 		}
 		return cv
 	}
+	// scripted large sets: one Apps / Clusters caveat with 33, 65, 257, 300 and 600 entries, two that overlap in half, the
+	// same under a conditional, and next to an organization caveat
+	var scopeScale [][]m.Cav
+	for _, k := range []int{33, 65, 257, 300, 600} {
+		var a1, a2 []m.EntN
+		var c1 []m.EntS
+		for j := 0; j < k; j++ {
+			a1 = append(a1, m.EntN{K: uint64(j + 1), M: uint16(1 + j%3)})
+			a2 = append(a2, m.EntN{K: uint64(j + 1 + k/2), M: 31})
+			c1 = append(c1, m.EntS{K: fmt.Sprintf("c%04d", j), M: uint16(1 + j%3)})
+		}
+		ifs := []m.Cav{{Kind: "CApps", RSN: a1}}
+		scopeScale = append(scopeScale,
+			[]m.Cav{{Kind: "CApps", RSN: a1}},
+			[]m.Cav{{Kind: "CApps", RSN: a1}, {Kind: "CApps", RSN: a2}},
+			[]m.Cav{{Kind: "COrganization", ID: 1, Mask: 31}, {Kind: "CIfPresent", Ifs: &ifs, Mask: 1}},
+			[]m.Cav{{Kind: "COrganization", ID: 1, Mask: 31}, {Kind: "CFeatureSet", RSS: []m.EntS{{K: "litefs-cloud", M: 31}}}, {Kind: "CClusters", RSS: c1}},
+		)
+	}
 	for i := 0; i < n; i++ {
 		nc := r.Intn(6)
 		set := make([]m.Cav, 0, nc)
 		for j := 0; j < nc; j++ {
 			set = append(set, mk(2))
+		}
+		if i < len(scopeScale) {
+			set = scopeScale[i] // scale: the helpers' answers for sets far beyond every small size
 		}
 		gs := macaroon.NewCaveatSet(m.CavsGo(set)...)
 		setCoq := m.CavsCoq(set)
@@ -669,4 +766,46 @@ func genC17(c *ctx) {
 		st.Add(&cs.Case{Coq: coqw.App("KUserID", setCoq, coqw.Bool(uerr == nil), coqw.N(uid)),
 			Desc: desc("DangerousUserID", map[string]any{"impl_id": uid, "impl_err": errStr(uerr)}), Class: "userid", Nontrivial: hasKind(set, "CIsUser", "CFlyioUserID")})
 	}
+	if f := expiryInRealTimeOracle(); f != "" {
+		st.Add(&cs.Case{Coq: coqw.App("KUserID", "[]", coqw.Bool(false), coqw.N(0)), Desc: map[string]any{"op": "the computed expiry passes while one request object is checked again and again"}, Class: "expiry-real-time", Nontrivial: true, OracleFail: f})
+	}
+}
+
+// expiryInRealTimeOracle (C17, "the expiry computed for a token is a time after which it no longer clears anything"): a token
+// that expires in about a second; ONE request object is checked before and, again and again, until after the computed
+// expiry (a poll loop, a long-lived connection): once the expiry has passed it clears nothing, whatever was cleared before.
+func expiryInRealTimeOracle() string {
+	key := macaroon.NewSigningKey()
+	for attempt := 0; attempt < 3; attempt++ {
+		na := time.Now().Unix() + 1
+		tok, _ := macaroon.New([]byte("k"), "https://perm.expiry.test", key)
+		tok.Add(&flyio.Organization{ID: 1, Mask: resset.ActionAll}, &macaroon.ValidityWindow{NotBefore: 0, NotAfter: na})
+		enc, _ := tok.Encode()
+		dm, _ := macaroon.Decode(enc)
+		set, err := dm.Verify(key, nil, nil)
+		if err != nil {
+			return "setup: " + err.Error()
+		}
+		exp := dm.Expiration()
+		acc := &flyio.Access{OrgID: pN(1), Action: resset.ActionRead}
+		if set.Validate(acc) != nil {
+			continue // the second ticked over already: try again
+		}
+		deadline := time.Now().Add(3 * time.Second)
+		for time.Now().Before(deadline) {
+			cleared := set.Validate(acc) == nil
+			if now := time.Now(); cleared && now.After(exp.Add(1100*time.Millisecond)) {
+				return fmt.Sprintf("a request object first checked while the token was valid is still cleared %v after the token's computed expiry", now.Sub(exp).Round(time.Millisecond))
+			}
+			if !cleared {
+				if fresh := (&flyio.Access{OrgID: pN(1), Action: resset.ActionRead}); set.Validate(fresh) == nil && time.Now().After(exp.Add(1100*time.Millisecond)) {
+					return "a fresh request object is cleared after the computed expiry"
+				}
+				return ""
+			}
+			time.Sleep(50 * time.Millisecond)
+		}
+		return "a token expiring in one second still clears three seconds later"
+	}
+	return ""
 }
